@@ -170,7 +170,7 @@ def clobber_case(sc):
     d = Path(tempfile.mkdtemp(prefix="c16-", dir=sc["root"]))
     outputs = ref["outputs"]
     pre = [outputs[i - 1] for i in sc["pre"]]
-    junk = b"JUNK" * 20000
+    junk = b"" if sc.get("empty") else b"JUNK" * 20000      # pre-existing files: 80 kB of junk, or zero-length files
     for n in pre:
         (d / n).write_bytes(junk)
     before = snapshot(d)
@@ -185,7 +185,7 @@ def clobber_case(sc):
             rc = rc or 98
     after = snapshot(d)
     after_n = snapshot(d, norm=[str(d)])
-    t = {"tid": sc["tid"], "cfg": sc["cfg"] + "/" + sc["in_fmt"] + "->" + sc["out_fmt"] + ("/log" if sc["log"] else "/nolog"), "outputs": outputs,
+    t = {"tid": sc["tid"], "cfg": sc["cfg"] + "/" + sc["in_fmt"] + "->" + sc["out_fmt"] + ("/log" if sc["log"] else "/nolog") + ("/empty-files" if sc.get("empty") else ""), "outputs": outputs,
          "pre": sc["pre"], "clobber": sc["clobber"], "exit": rc,
          "named": [i for i, n in enumerate(outputs, 1) if str(d / n) in text],
          "unchanged": [i for i, n in enumerate(outputs, 1) if n in before and after.get(n) == before[n]],
